@@ -52,6 +52,33 @@ func registerLibraryModels() {
 		}
 		return nil
 	}
+	// sync.Pool: Get returns an item put earlier (the most recent one: one of the behaviours the contract
+	// allows, and the one a single goroutine sees in practice) or New(), or nil without New.
+	I["(*sync.Pool).Put"] = func(e *Engine, caller *frame, fn *ssa.Function, args []Value) Value {
+		p := args[0].(*Value)
+		if e.pools == nil {
+			e.pools = map[*Value][]Value{}
+		}
+		if it, ok := args[1].(Iface); ok && it.T == nil {
+			return nil // Put(nil) is a no-op
+		}
+		e.pools[p] = append(e.pools[p], args[1])
+		return nil
+	}
+	I["(*sync.Pool).Get"] = func(e *Engine, caller *frame, fn *ssa.Function, args []Value) Value {
+		p := args[0].(*Value)
+		if items := e.pools[p]; len(items) > 0 {
+			it := items[len(items)-1]
+			e.pools[p] = items[:len(items)-1]
+			return it
+		}
+		st := (*p).(Struct)
+		newFn := st[len(st)-1] // the New field is the last one of sync.Pool
+		if isNilFunc(newFn) {
+			return Iface{}
+		}
+		return e.call(caller, 0, newFn, nil)
+	}
 	I["(*sync.Map).Load"] = func(e *Engine, caller *frame, fn *ssa.Function, args []Value) Value {
 		m := e.syncMapOf(args[0])
 		if i := e.mapFind(m, args[1]); i >= 0 {
